@@ -108,6 +108,10 @@ func (d *ExpoDom) Call(in *Interp, site ssa.Instruction, fn *ssa.Function, args 
 	case "field.(*Element).Square":
 		a := get(1)
 		return put(monoMul(a, a)), true
+	case "fiatScalarMul":
+		// the Montgomery product of the scalar field: multiplication of the values the wrappers carry
+		in.Store(site, args[0], monoMul(get(1), get(2)))
+		return nil, true
 	case "field.feMul", "field.feMulGeneric":
 		in.Store(site, args[0], monoMul(get(1), get(2)))
 		return nil, true
